@@ -125,6 +125,12 @@ def joinSetsAll (cfg : JCfg) (arrivals : List (Nat × JMsg)) : List (JSet JMsg) 
 
 /-! ### Batch joins: the points of the batches of one set are joined by rounded time and occurrence -/
 
+/-- Ascending order (insertion sort). -/
+def insertInt (x : Int) : List Int → List Int
+  | [] => [x]
+  | y :: ys => if x ≤ y then x :: y :: ys else y :: insertInt x ys
+def ascending (l : List Int) : List Int := l.foldr insertInt []
+
 def batchPoints (v : Option JMsg) : List BPt :=
   match v with
   | some b => b.points
@@ -150,7 +156,7 @@ def joinedBatch (cfg : JCfg) (s : JSet JMsg) : Option JBOut :=
     let fieldNames := match all with
       | p :: _ => p.fields.map (·.1)
       | [] => []
-    let times := (distinct (all.map (fun p => goRound cfg.tol p.time))).mergeSort (fun a b => decide (a ≤ b))
+    let times := ascending (distinct (all.map (fun p => goRound cfg.tol p.time)))
     let rows := times.flatMap (fun t =>
       (rowsOf (s.values.map (fun v => (batchPoints v).filter (fun p => goRound cfg.tol p.time == t)))).map (fun r => (t, r)))
     some { name := if cfg.sname = "" then first.name else cfg.sname, time := s.time, byName := first.byName, tags := first.tags
